@@ -112,6 +112,10 @@ class Stepper(object):
                 if gap > 1e-9 * scale:
                     bad("c12_area_shrank", "point (%r,%r) was excluded before the request and is not afterwards (outside by %r); response %r" % (x, y, gap, resp))
                     break
+                if gap < -1e-9 * scale:
+                    # well inside a region that is still listed, yet no longer excluded: the list is intact, the exclusion is not
+                    bad("c12_area_shrank", "point (%r,%r) was excluded before the request and is not afterwards although it lies %r inside a listed region; response %r" % (x, y, -gap, resp))
+                    break
         return out
 
 
@@ -245,6 +249,30 @@ def machine(tier, col):  # pylint: disable=unused-argument
                    else {"type": "CircularRegion", "cx": a, "cy": b, "r": abs(c - d)})
             new["id"] = old["id"]
             self.do(["api", "updateExcludeRegion", new])
+
+        @rule(pick=st.integers(0, 9), keep=st.lists(st.sampled_from(["x1", "y1", "x2", "y2", "cx", "cy", "r"]), max_size=3, unique=True),
+              val=st.sampled_from([0.5, 3.0, 12.0, 25.0]))
+        def update_partial(self, pick, keep, val):
+            """An update that names only some of the properties (the others are not the client's to omit, but it may)."""
+            cur = self.stepper.h.regions()
+            if not cur:
+                return
+            old = cur[pick % len(cur)]
+            new = {"type": old["type"], "id": old["id"]}
+            for k in keep:
+                if k in old:
+                    new[k] = val
+            self.do(["api", "updateExcludeRegion", new])
+
+        @rule(rect=st.booleans(), a=coord, b=coord)
+        def region_defined_between_prints(self, rect, a, b):
+            """The print ends, a region is defined while idle, a new print starts (the region is in force from its start)."""
+            n = len(self.case["ops"])
+            self.do(["event", "PRINT_DONE"])
+            data = ({"type": "RectangularRegion", "x1": a, "y1": b, "x2": a + 6.0, "y2": b + 4.0, "id": "p%d" % n} if rect
+                    else {"type": "CircularRegion", "cx": a, "cy": b, "r": 3.5, "id": "p%d" % n})
+            self.do(["api", "addExcludeRegion", data])
+            self.do(["event", "PRINT_STARTED"])
 
         @rule(pick=st.integers(0, 9))
         def delete(self, pick):
